@@ -14,6 +14,11 @@ RLBAD = [b"GET /p HTTP/2.0", b"GET /p HTTP/1.1 ", b"get /p HTTP/1.1", b"GET /p",
          b"GET /p HTTP/1.1\x0b", b" GET /p HTTP/1.1", b"GE(T /p HTTP/1.1", b"GET /p HTTP/11", b"/p HTTP/1.1",
          b"GET /p HTTP/1", b"GET /p HTTP/1.\xb2"]
 
+PX_OK = [b"PROXY TCP4 1.2.3.4 5.6.7.8 1111 2222", b"PROXY TCP6 ::1 2001:db8::2 1 65535", b"PROXY TCP4 255.255.255.255 0.0.0.0 0 0"]
+PX_BAD = [b"PROXY TCP4 1.2.3.4 5.6.7.8 1111", b"PROXY UNKNOWN", b"PROXY TCP4 999.1.1.1 1.1.1.1 1 2", b"PROXY TCP4 1.2.3.4 5.6.7.8 70000 1",
+          b"PROXY", b"PROXY TCP5 1.2.3.4 5.6.7.8 1 2", b"PROXY TCP4 1.2.3.4 5.6.7.8 a b", b"PROXY TCP6 1.2.3.4 5.6.7.8 1 2",
+          b"PROXY TCP4 1.2.3.4 5.6.7.8 1 2 3", b"PROXY  TCP4 1.2.3.4 5.6.7.8 1 2"]
+
 PYWS = [b"\x0b", b"\x0c", b"\x1c", b"\x1d", b"\x1e", b"\x1f", b"\x85", b"\xa0"]
 
 HDR = {
@@ -121,10 +126,12 @@ def concretize(ms, variant=0, cut=None):
     v = variant
     for mi, m in enumerate(ms):
         pad = m.get("pad") or {"rl": 0, "h": 0, "c": 0, "t": 0}
+        px = m.get("px", "none")
+        if px != "none":
+            c.line("PXbad" if px == "on_bad" else "PX", pick(PX_BAD if px == "on_bad" else PX_OK, v), 0, b"")
         rl = m["rl"]
         if rl == "RLbad":
-            assert pad["rl"] == 0
-            c.line(rl, pick(RLBAD, v), 0, b"")
+            c.line(rl, (pick(RLBAD, v), b""), pad["rl"], b"a" * pad["rl"])
         else:
             c.line(rl, pick(RL11 if rl == "RL11" else RL10, v), pad["rl"], b"a" * pad["rl"])
         for hi, h in enumerate(m["hdrs"]):
